@@ -37,8 +37,13 @@ var vars = []efivar.Efivar{
 	{Name: "verifordinary", GUID: &otherGUID, Attributes: attributes.EFI_VARIABLE_BOOTSERVICE_ACCESS | attributes.EFI_VARIABLE_RUNTIME_ACCESS},
 	// every attribute bit the specification defines, the highest one (0x80) included
 	{Name: "VerifAllAttributes", GUID: &otherGUID, Attributes: attributes.Attributes(0xff &^ uint32(attributes.EFI_VARIABLE_APPEND_WRITE))},
+	// variables a firmware derives from the keys: in this store they are registers like any other, a write to PK
+	// does not reach them
+	efivar.SetupMode, efivar.SecureBoot,
+	// a vendor's variable with a path separator in its name (any UCS-2 character is allowed in a variable name)
+	{Name: "Vendor/Config", GUID: &otherGUID, Attributes: attributes.EFI_VARIABLE_NON_VOLATILE | attributes.EFI_VARIABLE_BOOTSERVICE_ACCESS},
 }
-var varNames = []string{"PK", "KEK", "db", "dbx", "VerifOrdinary", "LoaderEntrySelected", "db@otherGUID", "verifordinary", "VerifAllAttributes"}
+var varNames = []string{"PK", "KEK", "db", "dbx", "VerifOrdinary", "LoaderEntrySelected", "db@otherGUID", "verifordinary", "VerifAllAttributes", "SetupMode", "SecureBoot", "Vendor/Config"}
 
 func secureBoot(i int) bool { return i < 4 }
 
@@ -128,7 +133,7 @@ func genCase(t *rapid.T) Case {
 	n := rapid.IntRange(1, max).Draw(t, "nops")
 	for i := 0; i < n; i++ {
 		// few variables so that the same one is rewritten with longer and shorter values
-		v := rapid.SampledFrom([]int{0, 1, 2, 2, 2, 3, 4, 4, 5, 6, 7, 7, 8}).Draw(t, "var")
+		v := rapid.SampledFrom([]int{0, 0, 1, 2, 2, 2, 3, 4, 4, 5, 6, 7, 7, 8, 9, 9, 10, 11, 11}).Draw(t, "var")
 		op := Op{Var: v, Own: rapid.IntRange(0, 2).Draw(t, "own_efivar_value") == 0}
 		switch k := rapid.IntRange(0, 9).Draw(t, "kind"); {
 		case k < 5:
